@@ -99,8 +99,9 @@ class NetworkXGraphStorageDisjoint:
             # check this graph_id isn't already present
             self.lock.acquire()
             try:
-                if graph_id in self.graphs.keys():
-                    # graph already present, warn and exit
+                if graph_id in self.graphs.keys() and len(self.graphs[graph_id].nodes()) > 0:
+                    # graph already present, warn and exit (an entry without nodes is what deleting a graph,
+                    # or merely asking about an unknown id, leaves behind - that graph does not exist)
                     if self.log is not None:
                         self.log.warn('Attempting to insert a graph with the same GraphID, skipping')
                     return
